@@ -145,6 +145,9 @@ theorem slice_append_right (a b : Bits) (off w : Nat) (h : a.length ≤ off) :
   simp only [slice]
   rw [List.drop_append, List.drop_eq_nil_of_le h, List.nil_append]
 
+theorem drop_append_skip (a b : Bits) (n : Nat) (h : a.length ≤ n) : (a ++ b).drop n = b.drop (n - a.length) := by
+  rw [List.drop_append, List.drop_eq_nil_of_le h, List.nil_append]
+
 theorem slice_append_left (a b : Bits) (off w : Nat) (h : off + w ≤ a.length) :
     slice (a ++ b) off w = slice a off w := by
   simp only [slice]
@@ -354,6 +357,14 @@ theorem bitsToNat_two_bits (v : Nat) (h : v < 2 ^ 2) :
   have : v = 0 ∨ v = 1 ∨ v = 2 ∨ v = 3 := by omega
   rcases this with rfl | rfl | rfl | rfl <;> rfl
 
+theorem poc_split (v : Nat) (h : v < 2 ^ 5) :
+    b2n (getBit (natToBits 5 v) 0) * 16 + bitsToNat ((natToBits 5 v).drop 1) = v := by
+  revert v; decide
+
+theorem ab_split (v : Nat) (h : v < 2 ^ 6) :
+    bitsToNat ([getBit (natToBits 6 v) 0, getBit (natToBits 6 v) 1] ++ (natToBits 6 v).drop 2) = v := by
+  revert v; decide
+
 theorem slice_split (bs : Bits) (a b : Nat) (h : bs.length = a + b) : slice bs 0 a ++ slice bs a b = bs := by
   simp only [slice, List.drop_zero]
   rw [List.take_of_length_le (l := bs.drop a) (by simp; omega)]
@@ -382,7 +393,7 @@ open Lean.Parser.Tactic in
 right-nested append chain of segments of known length, then `ba2int (int2ba v) = v` for in-range `v` -/
 macro "layout_simp" "[" ts:simpLemma,* "]" : tactic =>
   `(tactic| simp (config := { decide := true }) only [getField, slice_append_right, slice_append_left,
-      slice_append_exact, slice_exact, getBit_append_left, getBit_append_right', getBit_cons_zero,
+      slice_append_exact, slice_exact, slice_cons_succ, drop_append_skip, List.drop_zero, List.length_drop, poc_split, ab_split, getBit_append_left, getBit_append_right', getBit_cons_zero,
       getBit_cons_succ, natToBits_length, zeros_length, bytesToBits_length, slice_length_le, List.length_cons,
       List.length_nil, List.length_append, bitsToNat_natToBits, n2b_b2n, bitsToNat_singleton, Bool.not_not, b2n_beq_one, getBit_natToBits_one',
       bitsToNat_two_bits,
